@@ -19,7 +19,7 @@ from . import coqlit as L
 from .core import Relation, err_kind
 
 PROP = "C05"
-CLAIMED = False
+CLAIMED = True
 COQ_MODULES = ["C05_Check", "C05_Proofs", "C05_ProofsCodec", "C05_ProofsText"]
 PROPERTY_MODULE = "C05_Property"
 ALLOWED_AXIOMS = []
